@@ -662,7 +662,22 @@ class DimEval:
         env = {}
         for g in n.generators:
             it = g.iter
-            if isinstance(it, ast.Call) and dotted(it.func) in ("range", "enumerate"):
+            if isinstance(it, ast.Call) and dotted(it.func) == "zip" and isinstance(g.target, ast.Tuple) and len(g.target.elts) == len(it.args) and not it.keywords:
+                # element i of zip(A, B) has the element unit of A / of B
+                for tgt, seq in zip(g.target.elts, it.args):
+                    u = self.as_unit(self._unit(seq, at))
+                    for nm in ast.walk(tgt):
+                        if isinstance(nm, ast.Name):
+                            env[nm.id] = u.with_ext(False) if isinstance(u, Unit) else u
+            elif isinstance(it, ast.Call) and dotted(it.func) == "enumerate" and isinstance(g.target, ast.Tuple) and len(g.target.elts) == 2 and it.args:
+                for nm in ast.walk(g.target.elts[0]):
+                    if isinstance(nm, ast.Name):
+                        env[nm.id] = ONE
+                u = self.as_unit(self._unit(it.args[0], at))
+                for nm in ast.walk(g.target.elts[1]):
+                    if isinstance(nm, ast.Name):
+                        env[nm.id] = u.with_ext(False) if isinstance(u, Unit) else u
+            elif isinstance(it, ast.Call) and dotted(it.func) in ("range", "enumerate"):
                 for nm in ast.walk(g.target):
                     if isinstance(nm, ast.Name):
                         env[nm.id] = ONE
@@ -891,12 +906,23 @@ class DimEval:
         checked = 0
         while isinstance(s, ast.Call) and (self.resolved(s) in PRESERVE_FUNCS or (dotted(s.func) or "") in ("float",)) and len(s.args) == 1 and not s.keywords:
             s = s.args[0]
+        if isinstance(s, ast.IfExp):
+            # one obligation per alternative (a user-supplied width in one arm does not mask the default in the other)
+            return self.sigma_obligation(call, s.body, x, at) + self.sigma_obligation(call, s.orelse, x, at)
+        if isinstance(s, ast.Name) and at is not None and not self.fv.defs_reaching(s.id, at) - {self.fv.cfg.entry}:
+            return 0  # a parameter: supplied by the caller
         if isinstance(s, ast.Name) and at is not None:
             for d in self.flat_defs(s.id, at):
                 if d is self.fv.cfg.entry or d.stmt is None:
                     continue
                 names = CFG_defs(d)
                 nm = s.id if s.id in names else (names[0] if names else s.id)
+                val_ = self.fv.value_of_def(d, nm) if not isinstance(d.stmt, ast.AugAssign) else None
+                while isinstance(val_, ast.Call) and (self.resolved(val_) in PRESERVE_FUNCS or (dotted(val_.func) or "") in ("float",)) and len(val_.args) == 1 and not val_.keywords:
+                    val_ = val_.args[0]
+                if isinstance(val_, ast.IfExp):
+                    checked += self.sigma_obligation(call, val_, x, d)
+                    continue
                 u = self.as_unit(self.def_unit(d, nm))
                 if isinstance(u, Unit) and isinstance(x, Unit):
                     checked += 1
